@@ -102,24 +102,24 @@ type childRec struct {
 }
 
 type child struct {
-	e        *env
-	out      *bufio.Writer
-	outF     *os.File
-	logF     *os.File
-	logN     int
-	counts   map[string]int64
-	combos   map[string]bool
-	mu       sync.Mutex
-	curCase  atomic.Value // string
-	curStart atomic.Int64
-	curData  []byte
-	curOps   []string
-	targets  map[string]target
-	pending  [][]byte // signed txs waiting for a batched ApplyBlock
-	pendingC []string
-	seenTx   map[string]bool // transactions already queued once (a block with a duplicate is refused as a whole)
+	e         *env
+	out       *bufio.Writer
+	outF      *os.File
+	logF      *os.File
+	logN      int
+	counts    map[string]int64
+	combos    map[string]bool
+	mu        sync.Mutex
+	curCase   atomic.Value // string
+	curStart  atomic.Int64
+	curData   []byte
+	curOps    []string
+	targets   map[string]target
+	pending   [][]byte // signed txs waiting for a batched ApplyBlock
+	pendingC  []string
+	seenTx    map[string]bool // transactions already queued once (a block with a duplicate is refused as a whole)
 	sysTotals map[string]int
-	hangSec  int
+	hangSec   int
 }
 
 func (c *child) emit(r childRec) {
@@ -141,8 +141,6 @@ func (c *child) logInput(name string, data []byte) {
 	fmt.Fprintf(c.logF, "%s %s\n", name, hex.EncodeToString(data))
 	c.logN++
 }
-
-var canopyFrame = regexp.MustCompile(`github\.com/canopy-network/canopy/([^\s(]+(?:\([^)]*\))?[^\s(]*)\(`)
 
 // topCanopyFrame extracts the innermost canopy function of a panic stack.
 func topCanopyFrame(stack string) string {
@@ -273,7 +271,7 @@ func (c *child) regressionInputs() (targets []string, inputs [][]byte, notes []s
 	// codec.GetRawProtoField: declared length >= 2^63 in the block bytes of a certificate (repaired in canopy f14e602)
 	for _, l := range []uint64{1<<64 - 1, 1 << 63, 1<<63 - 1} {
 		blk := protowire.AppendVarint(protowire.AppendTag(nil, 1, protowire.BytesType), l)
-		qc := protowire.AppendBytes(protowire.AppendTag(nil, 1, protowire.BytesType), nil)           // header: {}
+		qc := protowire.AppendBytes(protowire.AppendTag(nil, 1, protowire.BytesType), nil)            // header: {}
 		qc = protowire.AppendBytes(protowire.AppendTag(qc, 3, protowire.BytesType), make([]byte, 32)) // results_hash
 		qc = protowire.AppendBytes(protowire.AppendTag(qc, 4, protowire.BytesType), blk)              // block
 		qc = protowire.AppendBytes(protowire.AppendTag(qc, 5, protowire.BytesType), make([]byte, 32)) // block_hash
@@ -884,8 +882,8 @@ func (c *child) oversize() {
 	}
 	// a results message with n payment percents nested two levels deep
 	nestedList := func(n int) []byte {
-		pp := rep(1, n, []byte{0x10, 0x01})                                              // PaymentPercents{percent:1}
-		rr := protowire.AppendBytes(protowire.AppendTag(nil, 1, protowire.BytesType), pp) // CertificateResult.reward_recipients
+		pp := rep(1, n, []byte{0x10, 0x01})                                                // PaymentPercents{percent:1}
+		rr := protowire.AppendBytes(protowire.AppendTag(nil, 1, protowire.BytesType), pp)  // CertificateResult.reward_recipients
 		return protowire.AppendBytes(protowire.AppendTag(nil, 2, protowire.BytesType), rr) // QuorumCertificate.results
 	}
 	padTo := func(num protowire.Number, n int) []byte { // one bytes field whose whole encoding is exactly n bytes long
@@ -1025,6 +1023,10 @@ func absorb(run *core.Run, res childResult) {
 			}
 		case "recovered":
 			run.Count("canopy_recovered_panics", 1)
+			if recoveredSamples.Add(1) > 2 {
+				recoveredKinds.Store(recoveredKind(r.Msg), r.Case)
+				continue
+			}
 			run.Sample(map[string]any{"note": "panic recovered by canopy's own recover point (not a violation)", "case": r.Case, "fn": r.Fn, "log": firstLines(r.Msg, 14), "input_hex_head": headHex(r.Input, 300), "input_len": len(r.Input) / 2})
 			recoveredKinds.Store(recoveredKind(r.Msg), r.Case)
 		case "oversize":
@@ -1148,6 +1150,8 @@ func spawnSingle(dir string, _ int, caseName string, hangSec int) childResult {
 	}
 	return res
 }
+
+var recoveredSamples atomic.Int32
 
 var recoveredKinds sync.Map // first canopy frame below the panic -> an example case
 
